@@ -98,7 +98,8 @@ func (c *Ctx) smtp() *smtpModel {
 				if eng.SameField(f, m.fState) && !fresh {
 					isW = true
 				}
-				if eng.SameField(f, m.fRecips) && eng.IsNilConst(x.Val) {
+				// the envelope reset clears the sender and/or the recipient list
+				if (eng.SameField(f, m.fRecips) || eng.SameField(f, m.fFrom)) && eng.IsNilConst(x.Val) && !fresh {
 					isR = true
 				}
 			case *ssa.Alloc:
@@ -137,7 +138,7 @@ func (c *Ctx) smtp() *smtpModel {
 	}
 	m.stateWriter = one("state writer (stores to Session.state)", writers)
 	m.send = one("reply writer (calls textproto PrintfLine)", senders)
-	m.reset = one("envelope reset (stores nil to Session.recipients)", resets)
+	m.reset = one("envelope reset (stores nil to Session.from / Session.recipients)", resets)
 	m.newSession = one("session allocation", allocs)
 	m.readLine = one("command line read (textproto ReadLine)", rl)
 	m.dataRead = one("DATA read (textproto ReadDotBytes/DotReader)", dr)
